@@ -222,6 +222,10 @@ func (w *azWorker) judge(name string, msg sdk.Msg, pre, post azSummary, preDump 
 		} else if exists && accepted {
 			w.stats.Count("update:by-owner-accepted")
 		}
+		// permissionless users control opt-in consumers only: a Top-N value can only come from governance
+		if qc := post.cons[m.ConsumerId]; exists && accepted && qc.topN != 0 && qc.topN != pc.topN && signer != G {
+			vs = append(vs, vf("C14", "topn-set-by-non-gov", "%s: signer %s (not the governance authority) gave consumer %s the Top-N value %d", name, who, m.ConsumerId, qc.topN))
+		}
 	case *providertypes.MsgRemoveConsumer:
 		pc, exists := pre.cons[m.ConsumerId]
 		if exists && signer != pc.owner {
